@@ -116,9 +116,9 @@ structure LInv (n : Nat) (created : List Nat) (s0 : St) (L : Loop) : Prop where
   dqNodup : L.deque.Nodup
   dq : ∀ p ∈ L.deque, p ∈ created ∧ (L.st p).stage = .suspended
   cnt : L.received + tcount created L.st = created.length
-  pushNodup : L.pushed.Nodup
-  push1 : ∀ p ∈ L.pushed, p.2 = n ∧ p.1 ∈ created ∧ (L.st p.1).stage ≠ .timeStarted
-  push2 : ∀ h ∈ created, (L.st h).stage ≠ .timeStarted → (h, n) ∈ L.pushed
+  pushNodup : L.recvd.Nodup
+  push1 : ∀ p ∈ L.recvd, p.2 = n ∧ p.1 ∈ created ∧ (L.st p.1).stage ≠ .timeStarted
+  push2 : ∀ h ∈ created, (L.st h).stage ≠ .timeStarted → (h, n) ∈ L.recvd
   stor : ∀ h ∈ created, (L.st h).stage = .idle → (L.st h).stored ≠ none
 
 /-- stages only move forward along `suspended → out_state_started` for handlers that are not being received -/
@@ -203,7 +203,7 @@ def Loop.afterTime (L : Loop) (c : Cfg) (h n : Nat) (y : HS) : Loop :=
   { L with st := upd L.st h y,
            deque := if c.outArgs h then L.deque else L.deque ++ [h],
            received := L.received + 1,
-           pushed := L.pushed ++ [(h, n)] }
+           recvd := L.recvd ++ [(h, n)] }
 
 theorem stepTime_ok {n : Nat} {created : List Nat} {s0 : St} {L : Loop} (c : Cfg) (hI : LInv n created s0 L) {h : Nat}
     (hc : h ∈ created) (hs : (L.st h).stage = .timeStarted) :
@@ -256,7 +256,7 @@ theorem stepTime_ok {n : Nat} {created : List Nat} {s0 : St} {L : Loop} (c : Cfg
       have h0 := hI.cnt
       show L.received + 1 + tcount created (upd L.st h y) = created.length
       omega
-    · show (L.pushed ++ [(h, n)]).Nodup
+    · show (L.recvd ++ [(h, n)]).Nodup
       rw [List.nodup_append]
       refine ⟨hI.pushNodup, by simp, ?_⟩
       intro a ha b hb
@@ -264,7 +264,7 @@ theorem stepTime_ok {n : Nat} {created : List Nat} {s0 : St} {L : Loop} (c : Cfg
       intro e; subst e
       exact (hI.push1 _ ha).2.2 hs
     · intro p hp
-      have hp' : p ∈ L.pushed ∨ p = (h, n) := by simpa using hp
+      have hp' : p ∈ L.recvd ∨ p = (h, n) := by simpa using hp
       rcases hp' with hp' | hp'
       · obtain ⟨h1, h2, h3⟩ := hI.push1 p hp'
         refine ⟨h1, h2, ?_⟩
@@ -273,7 +273,7 @@ theorem stepTime_ok {n : Nat} {created : List Nat} {s0 : St} {L : Loop} (c : Cfg
         · exact h3
       · subst hp'; simp [hc, hys]
     · intro k hk hst
-      show (k, n) ∈ L.pushed ++ [(h, n)]
+      show (k, n) ∈ L.recvd ++ [(h, n)]
       by_cases e : k = h
       · subst e; simp
       · simp only [upd_apply, e, if_false] at hst
